@@ -5,7 +5,7 @@ the model's `elements` on the same BPSEQ and the same dot-bracket line.  Specifi
 (`ss.elements_spec`, Lean `specAll`) evaluated on the element lists of the REAL code; the text part
 (strand sequence/structure = slices of sequence / dot-bracket) is string equality checked here.
 """
-from core import Result, call, parallel_map
+from core import history_probe, Result, call, parallel_map
 from gen import g1
 from corr.c01 import component_sizes
 
@@ -143,6 +143,7 @@ def run(ctx):
     inputs, nmax = build_inputs(ctx)
     res.dist["exhaustive_nmax"] = nmax
     outs = parallel_map(real, [c for _, c in inputs])
+    history_probe(ctx, res, real, [c for _, c in inputs], "elements")
     reqs, idx = [], []
     for ci, ((tag, (seq, pairs)), o) in enumerate(zip(inputs, outs)):
         if "err" in o:
